@@ -123,14 +123,25 @@ class NeighbourListing(_NQ):
 
 
 class DegreeIter(_NQ):
-    """degree_iter / in_degree_iter / out_degree_iter with nbunch=None"""
+    """degree_iter / in_degree_iter / out_degree_iter with nbunch = None, a node of the graph, or a one-element list [n] (n any node id)"""
+
+    def variants(self):
+        return [{'mode': m, 't': t, 'nb': nb} for m in ('removal', 'accum') for t in ('int', 'none') for nb in ('none', 'node', 'list1')]
 
     def setup(self, ctx, variant):
         c = self.base(ctx, variant)
-        c.argv = [VGraph(c.g), VNone, VInt(c.t) if c.t is not None else VNone]
+        nb = variant.get('nb', 'none')
+        c.nb = nb
+        if nb == 'node':
+            ctx.assume(c.g['NodeIn'][c.n])          # requires: a node given as nbunch is in the graph (degree() checks `nbunch in self`)
+        nbv = {'none': VNone, 'node': VNode(c.n), 'list1': VList([VNode(c.n)])}[nb]
+        c.argv = [VGraph(c.g), nbv, VInt(c.t) if c.t is not None else VNone]
         ctx.deg = c
         self.ghost0 = {'$ydeg': VOpaque(z3.K(Node, IntV(0)), 'ghost')}
         return c
+
+    def uses(self, eng):
+        return [PresenceTest(self.cls)]
 
     def body(self, interp, call):
         interp.generator_ghost = dict(self.ghost0)
@@ -153,6 +164,7 @@ class DegreeIter(_NQ):
                 loop = me.R(ctx, c, 'adj', a, a)
                 if 'D11' in getattr(me, 'excluded_regions', ()):
                     ctx.oblige('C02.degree.value_is_the_number_of_elements_counted', z3.Implies(z3.Not(loop), val.z == tot), tags=T, kind='yield')
+                    ctx.oblige('C02.degree.value_counts_a_self_loop_once_or_twice', z3.And(tot <= val.z, val.z <= tot + b2i(loop)), tags=T, kind='yield')
                 else:
                     ctx.oblige('C02.degree.value_is_the_number_of_elements_counted', val.z == tot + b2i(loop), tags=T, kind='yield')
             else:
@@ -174,8 +186,62 @@ class DegreeIter(_NQ):
         if gh is None or '$ydeg' not in gh:
             return self.forbid(ctx, 'C02.degree.yields_node_number_pairs', tags=T)
         Y = gh['$ydeg'].z
-        ctx.oblige('C02.degree.one_pair_per_node_of_the_graph', Y[c.qb] == b2i(c.pre['NodeIn'][c.qb]), tags=T)
+        if c.nb == 'none':
+            ctx.oblige('C02.degree.one_pair_per_node_of_the_graph', Y[c.qb] == b2i(c.pre['NodeIn'][c.qb]), tags=T)
+        else:
+            ctx.oblige('C02.degree.one_pair_for_the_listed_node_if_it_is_in_the_graph',
+                       Y[c.qb] == b2i(z3.And(c.qb == c.n, c.pre['NodeIn'][c.n])), tags=T)
         self.unchanged(ctx, c, 'degree')
+
+    # ---- caller side
+    def apply(self, interp, g, argv, kwv):
+        """yields (a, D(a)) for the nodes selected by nbunch, D(a) = sum over the maps of Deg_w(a), Deg_w(a) the number of b with
+        R_w(a, b): an uninterpreted non-negative number with the counting facts  Deg_w(a) > 0 <=> exists b. R_w(a, b)
+        (DynGraph.degree_iter while finding D11 is listed: unspecified for a node with a self-loop present)"""
+        from pyvc.sym import fresh_fun
+        from pyvc.loops import VBag
+        ctx = interp.ctx
+        args = dict(zip(['nbunch', 't'], argv))
+        args.update(kwv)
+        nb, t = args.get('nbunch', VNone), args.get('t', VNone)
+        if t.kind not in ('none', 'int'):
+            raise Undecided('degree iterator called with t of kind %s' % t.kind)
+        removal = z3.is_true(g['ER'])
+        if not removal and not z3.is_false(g['ER']):
+            raise Undecided('edge_removal not fixed at a degree iterator call')
+        c = Call(pre=g, t=t.z if t.kind == 'int' else None, removal=removal)
+        a, b = z3.Const('a?dq', Node), z3.Const('b?dq', Node)
+        total = None
+        for w in self.maps:
+            deg = fresh_fun('Deg_' + w, Node, Int)
+            wit = fresh_fun('wit_' + w, Node, Node)
+            C = g['Cell_' + w]
+            ctx.assume(FA([a], z3.And(deg(a) >= 0, z3.Implies(deg(a) > 0, self.R(ctx, c, w, a, wit(a)))), [deg(a)]), 'call')
+            ctx.assume(FA([a, b], z3.Implies(self.R(ctx, c, w, a, b), deg(a) > 0), [C[a][b]]), 'call')
+            total = (lambda f, prev: (lambda x: f(x) if prev is None else prev(x) + f(x)))(deg, total)
+        if self.fname == 'degree_iter' and not self.directed:
+            extra = fresh_fun('selfloop_extra', Node, Int)
+            loop = lambda x: self.R(ctx, c, 'adj', x, x)
+            if 'D11' in getattr(self, 'excluded_regions', ('D11',)):
+                ctx.assume(FA([a], z3.And(0 <= extra(a), extra(a) <= b2i(loop(a))), [extra(a)]), 'call')
+            else:
+                ctx.assume(FA([a], extra(a) == b2i(loop(a)), [extra(a)]), 'call')
+            D = lambda x: total(x) + extra(x)
+        else:
+            D = total
+        ctx.notes.append('counting facts assumed at a degree iterator call: the number of elements of a collection is positive iff it has a member')
+        ctx.last_degree = D
+        if nb.kind == 'none':
+            return VBag([Node], lambda x: g['NodeIn'][x], lambda x: VTuple([VNode(x), VInt(D(x))]), note='degree pairs')
+        if nb.kind == 'node':
+            ctx.oblige('pre.%s.node_in_graph' % self.fname, g['NodeIn'][nb.z], kind='pre')
+            return VList([VTuple([nb, VInt(D(nb.z))])])
+        if nb.kind == 'list' and not nb.esc and len(nb.items) == 1 and nb.items[0].kind == 'node':
+            x = nb.items[0]
+            if ctx.branch(g['NodeIn'][x.z], 'listed-node-in-graph'):
+                return VList([VTuple([x, VInt(D(x.z))])])
+            return VList([])
+        raise Undecided('degree iterator called with an nbunch of kind %s' % nb.kind)
 
 
 # ---- bounded search on the real code (triage of a refuted / undischarged clause) --------------------------------------------------
@@ -195,9 +261,59 @@ def run_case(cls, fname, removal, history, n, t):
     history = [tuple(tuple(y) if isinstance(y, list) else y for y in c) for c in history]
     G, M, outs = run_history(cls, removal, history, probing=False)
     nodes = sorted(G.nodes(), key=repr)
-    w = MAPS[fname]
+    w = MAPS.get(fname)
     maps = [w] if w else (['succ', 'pred'] if cls == 'DynDiGraph' else ['adj'])
     out = {}
+    both = ['succ', 'pred'] if cls == 'DynDiGraph' else ['adj']
+    alive = lambda a: any(_expected(M, w_, a, t, nodes) for w_ in both)
+    if fname in ('has_node', 'nodes', 'nodes_iter', 'number_of_nodes'):
+        try:
+            res = getattr(G, fname)(n, t) if fname == 'has_node' else getattr(G, fname)(t)
+        except Exception as ex:
+            return {'C02.%s.no_exception.%s' % (fname.replace('_iter', ''), type(ex).__name__): repr(ex)}
+        want_nodes = [a for a in nodes if (t is None or alive(a))]
+        if fname == 'has_node':
+            exp = (n in nodes) if t is None else (n in nodes and alive(n))
+            if bool(res) != exp:
+                out['C02.has_node.true_only_with_an_interaction_present' if res else 'C02.has_node.true_with_an_interaction_present'] = \
+                    'has_node(%r, %r) = %r, expected %r' % (n, t, res, exp)
+        elif fname == 'number_of_nodes':
+            if res != len(want_nodes):
+                out['C02.number_of_nodes.counts_only_nodes_with_an_interaction_present' if res > len(want_nodes) else
+                    'C02.number_of_nodes.counts_every_node_with_an_interaction_present'] = 'number_of_nodes(%r) = %r, nodes with an interaction present: %r' % (t, res, want_nodes)
+        else:
+            got = sorted(map(repr, list(res)))
+            if got != sorted(map(repr, want_nodes)):
+                out['C02.nodes.lists_only_nodes_with_an_interaction_present' if set(got) - set(map(repr, want_nodes)) else
+                    'C02.nodes.lists_every_node_with_an_interaction_present'] = '%s(%r) = %r, expected %r' % (fname, t, got, want_nodes)
+        return out
+    if fname in ITER_OF:
+        nb = n[1] if isinstance(n, (list, tuple)) else n
+        arg = [nb] if isinstance(n, (list, tuple)) else n
+        try:
+            res = getattr(G, fname)(arg, t)
+        except Exception as ex:
+            return {'C02.degree_query.no_exception.%s' % type(ex).__name__: repr(ex)}
+
+        def D(a):
+            d = sum(len(_expected(M, w_, a, t, nodes)) for w_ in maps)
+            return (d, d + 1) if (fname == 'degree' and cls == 'DynGraph' and a in _expected(M, 'adj', a, t, nodes)) else (d,)
+        if n is None:
+            if not isinstance(res, dict) or sorted(map(repr, res)) != sorted(map(repr, nodes)):
+                out['C02.degree_query.one_entry_per_node'] = '%s(None, %r) = %r, nodes %r' % (fname, t, res, nodes)
+            else:
+                for a in nodes:
+                    if res[a] not in D(a):
+                        out['C02.degree_query.entry_is_the_iterator_value'] = '%s(None, %r)[%r] = %r, neighbours present: %r' % (fname, t, a, res[a], D(a)[0])
+        elif isinstance(n, (list, tuple)):
+            exp_keys = [nb] if nb in nodes else []
+            if not isinstance(res, dict) or sorted(map(repr, res)) != sorted(map(repr, exp_keys)):
+                out['C02.degree_query.unknown_nodes_are_ignored' if nb not in nodes else 'C02.degree_query.listed_node_entry'] = '%s([%r], %r) = %r' % (fname, nb, t, res)
+            elif exp_keys and res[nb] not in D(nb):
+                out['C02.degree_query.listed_node_entry'] = '%s([%r], %r) = %r, neighbours present: %r' % (fname, nb, t, res, D(nb)[0])
+        elif n in nodes and res not in D(n):
+            out['C02.degree_query.single_node_value_is_the_iterator_value'] = '%s(%r, %r) = %r, neighbours present: %r' % (fname, n, t, res, D(n)[0])
+        return out
     if fname.endswith('degree_iter'):
         try:
             pairs = list(getattr(G, fname)(None, t))
@@ -237,7 +353,15 @@ def _search_real(self, engine):
             if any(o[0] != o[1] for o in outs) or not M.keys():
                 continue
             for t in [None] + list(qs_of(M)):
-                for n in ((1, 2, 3, 9) if not self.fname.endswith('degree_iter') else (None,)):
+                if self.fname.endswith('degree_iter') or self.fname in ('nodes', 'nodes_iter', 'number_of_nodes'):
+                    ns = (None,)
+                elif self.fname in ITER_OF:
+                    ns = (None, 1, 2, 3, ['list', 1], ['list', 3], ['list', 9])
+                else:
+                    ns = (1, 2, 3, 9)
+                for n in ns:
+                    if self.fname in ITER_OF and isinstance(n, int) and n not in G:
+                        continue
                     v = run_case(cls, self.fname, rem, h, n, t)
                     if v:
                         return {'violated': v, 'call': '%s.%s(%r, %r) after %r (edge_removal=%s)' % (cls, self.fname, n, t, h, rem),
@@ -246,3 +370,187 @@ def _search_real(self, engine):
 
 
 _NQ.search_real = _search_real
+
+
+# ---- the wrappers over the degree iterators (modular: against DegreeIter.apply; degree() itself is inlined where it is only a step) --
+
+ITER_OF = {'degree': 'degree_iter', 'in_degree': 'in_degree_iter', 'out_degree': 'out_degree_iter'}
+
+
+class _OverDegree(_NQ):
+    iter_name = 'degree_iter'
+
+    def uses(self, eng):
+        d = DegreeIter(self.cls, self.iter_name)
+        d.excluded_regions = getattr(self, 'excluded_regions', set())
+        return [d]
+
+    def reads(self):
+        ks = [DegreeIter(self.cls, self.iter_name).key]
+        if self.fname not in ITER_OF:
+            ks.append('%s::%s.degree' % (self.mod, self.cls))
+        return ks
+
+    def some_neighbour(self, ctx, c, a, b):
+        """b witnesses that a has an interaction present (t given) in one of the maps the degree counts"""
+        return z3.Or(*[self.R(ctx, c, w, a, b) for w in (['succ', 'pred'] if self.directed else ['adj'])])
+
+
+class DegreeQuery(_OverDegree):
+    """degree / in_degree / out_degree (nbunch None -> dict over all nodes; a node of the graph -> its number; [n] -> dict with at most n)
+    ensures  the answer is, node by node, exactly the number the degree iterator yields for that node (whose meaning is DegreeIter's
+             contract: the number of neighbours present), for exactly the nodes selected by nbunch; G not modified"""
+
+    def __init__(self, cls, fname, bound_n=None):
+        MAPS[fname] = MAPS[ITER_OF[fname]]
+        _NQ.__init__(self, cls, fname, bound_n)
+        self.iter_name = ITER_OF[fname]
+
+    def variants(self):
+        return [{'mode': m, 't': t, 'nb': nb} for m in ('removal', 'accum') for t in ('int', 'none') for nb in ('none', 'node', 'list1')]
+
+    def setup(self, ctx, variant):
+        c = self.base(ctx, variant)
+        c.nb = variant['nb']
+        if c.nb == 'node':
+            ctx.assume(c.g['NodeIn'][c.n])
+        nbv = {'none': VNone, 'node': VNode(c.n), 'list1': VList([VNode(c.n)])}[c.nb]
+        c.argv = [VGraph(c.g), nbv, VInt(c.t) if c.t is not None else VNone]
+        return c
+
+    def finish(self, ctx, c, outcome):
+        if outcome[0] == 'raise':
+            return self.forbid(ctx, 'C02.degree_query.no_exception.%s' % outcome[1], tags=T, note=outcome[2])
+        r = outcome[1]
+        D = getattr(ctx, 'last_degree', None)
+        if D is None:
+            return self.forbid(ctx, 'C02.degree_query.asks_the_degree_iterator', tags=T)
+        if c.nb == 'none':
+            if r.kind != 'nodemap':
+                return self.forbid(ctx, 'C02.degree_query.returns_a_dict_over_the_nodes', tags=T, note='result kind %s' % r.kind)
+            ctx.oblige('C02.degree_query.one_entry_per_node', r.dom(c.qb) == c.pre['NodeIn'][c.qb], tags=T)
+            v = r.get(c.qb)
+            ctx.oblige('C02.degree_query.entry_is_the_iterator_value', z3.Implies(c.pre['NodeIn'][c.qb], v.z == D(c.qb)) if v.kind == 'int' else z3.BoolVal(False), tags=T)
+        elif c.nb == 'node':
+            ctx.oblige('C02.degree_query.single_node_value_is_the_iterator_value', (r.z == D(c.n)) if r.kind == 'int' else z3.BoolVal(False), tags=T)
+        else:
+            if r.kind != 'dict':
+                return self.forbid(ctx, 'C02.degree_query.returns_a_dict_for_a_list', tags=T, note='result kind %s' % r.kind)
+            inn = c.pre['NodeIn'][c.n]
+            if len(r.pairs) == 0:
+                ctx.oblige('C02.degree_query.unknown_nodes_are_ignored', z3.Not(inn), tags=T)
+            elif len(r.pairs) == 1 and r.pairs[0][0].kind == 'node' and r.pairs[0][1].kind == 'int':
+                ctx.oblige('C02.degree_query.listed_node_entry', z3.And(inn, r.pairs[0][0].z == c.n, r.pairs[0][1].z == D(c.n)), tags=T)
+            else:
+                return self.forbid(ctx, 'C02.degree_query.one_entry_for_one_listed_node', tags=T)
+        self.unchanged(ctx, c, 'degree_query')
+
+
+class HasNode(_OverDegree):
+    """has_node(n, t)   ensures  t None: result <=> n in G;   t given: result <=> n in G and n has an interaction present at t"""
+
+    def __init__(self, cls, bound_n=None):
+        MAPS['has_node'] = None
+        _NQ.__init__(self, cls, 'has_node', bound_n)
+
+    def variants(self):
+        return [{'mode': m, 't': t} for m in ('removal', 'accum') for t in ('int', 'none')]
+
+    def setup(self, ctx, variant):
+        c = self.base(ctx, variant)
+        c.argv = [VGraph(c.g), VNode(c.n), VInt(c.t) if c.t is not None else VNone]
+        return c
+
+    def finish(self, ctx, c, outcome):
+        if outcome[0] == 'raise':
+            return self.forbid(ctx, 'C02.has_node.no_exception.%s' % outcome[1], tags=T, note=outcome[2])
+        r = outcome[1]
+        if r.kind != 'bool':
+            return self.forbid(ctx, 'C02.has_node.returns_bool', tags=T, note='result kind %s' % r.kind)
+        inn = c.pre['NodeIn'][c.n]
+        if c.t is None:
+            ctx.oblige('C02.has_node.flattened_is_membership', r.z == inn, tags=T)
+        else:
+            b = z3.Const('b?hn', Node)
+            ctx.oblige('C02.has_node.true_only_with_an_interaction_present', z3.Implies(r.z, z3.And(inn, z3.Exists([b], self.some_neighbour(ctx, c, c.n, b)))), tags=T)
+            ctx.oblige('C02.has_node.true_with_an_interaction_present', z3.Implies(z3.And(inn, self.some_neighbour(ctx, c, c.n, c.qb)), r.z), tags=T)
+        self.unchanged(ctx, c, 'has_node')
+
+
+class NodesAt(_OverDegree):
+    """nodes(t) / nodes_iter(t) (data False)   ensures  the nodes with an interaction present at t (t None: all nodes), each once"""
+
+    def __init__(self, cls, fname='nodes', bound_n=None):
+        MAPS[fname] = None
+        _NQ.__init__(self, cls, fname, bound_n)
+
+    def variants(self):
+        return [{'mode': m, 't': t} for m in ('removal', 'accum') for t in ('int', 'none')]
+
+    def reads(self):
+        return _OverDegree.reads(self) + ['%s::%s.nodes_iter' % (self.mod, self.cls)]
+
+    def setup(self, ctx, variant):
+        c = self.base(ctx, variant)
+        c.argv = [VGraph(c.g), VInt(c.t) if c.t is not None else VNone]
+        return c
+
+    def finish(self, ctx, c, outcome):
+        if outcome[0] == 'raise':
+            return self.forbid(ctx, 'C02.nodes.no_exception.%s' % outcome[1], tags=T, note=outcome[2])
+        r = outcome[1]
+        if r.kind == 'nodedict':
+            member = lambda a: c.pre['NodeIn'][a]
+        elif r.kind == 'bag' and len(r.sorts) == 1 and r.sorts[0] == Node:
+            x = fresh('x', Node)
+            e = r.make(x)
+            if not (e.kind == 'node' and e.z.eq(x)):
+                return self.forbid(ctx, 'C02.nodes.lists_node_ids', tags=T, note='element kind %s' % e.kind)
+            member = r.member
+        else:
+            return self.forbid(ctx, 'C02.nodes.returns_a_collection_of_nodes', tags=T, note='result kind %s' % r.kind)
+        inn = c.pre['NodeIn']
+        if c.t is None:
+            ctx.oblige('C02.nodes.flattened_lists_every_node', member(c.n) == inn[c.n], tags=T)
+        else:
+            b = z3.Const('b?na', Node)
+            ctx.oblige('C02.nodes.lists_only_nodes_with_an_interaction_present',
+                       z3.Implies(member(c.n), z3.And(inn[c.n], z3.Exists([b], self.some_neighbour(ctx, c, c.n, b)))), tags=T)
+            ctx.oblige('C02.nodes.lists_every_node_with_an_interaction_present', z3.Implies(z3.And(inn[c.n], self.some_neighbour(ctx, c, c.n, c.qb)), member(c.n)), tags=T)
+        self.unchanged(ctx, c, 'nodes')
+
+
+class NumberOfNodes(_OverDegree):
+    """number_of_nodes(t)   ensures  the result is the number of elements of a collection holding exactly the nodes with an interaction
+    present at t (t None: all nodes), each once (counting trusted; the membership is what is proved)"""
+
+    def __init__(self, cls, bound_n=None):
+        MAPS['number_of_nodes'] = None
+        _NQ.__init__(self, cls, 'number_of_nodes', bound_n)
+
+    def variants(self):
+        return [{'mode': m, 't': t} for m in ('removal', 'accum') for t in ('int', 'none')]
+
+    def setup(self, ctx, variant):
+        c = self.base(ctx, variant)
+        c.argv = [VGraph(c.g), VInt(c.t) if c.t is not None else VNone]
+        return c
+
+    def finish(self, ctx, c, outcome):
+        if outcome[0] == 'raise':
+            return self.forbid(ctx, 'C02.number_of_nodes.no_exception.%s' % outcome[1], tags=T, note=outcome[2])
+        r = outcome[1]
+        cards = [(cz, bag) for (cz, bag) in getattr(ctx, 'cards', []) if r.kind == 'int' and cz.eq(r.z)]
+        if not cards:
+            return self.forbid(ctx, 'C02.number_of_nodes.is_a_number_of_elements', tags=T, note='result kind %s' % r.kind)
+        member = cards[-1][1].member
+        inn = c.pre['NodeIn']
+        if c.t is None:
+            ctx.oblige('C02.number_of_nodes.flattened_counts_every_node', member(c.n) == inn[c.n], tags=T)
+        else:
+            b = z3.Const('b?nn', Node)
+            ctx.oblige('C02.number_of_nodes.counts_only_nodes_with_an_interaction_present',
+                       z3.Implies(member(c.n), z3.And(inn[c.n], z3.Exists([b], self.some_neighbour(ctx, c, c.n, b)))), tags=T)
+            ctx.oblige('C02.number_of_nodes.counts_every_node_with_an_interaction_present',
+                       z3.Implies(z3.And(inn[c.n], self.some_neighbour(ctx, c, c.n, c.qb)), member(c.n)), tags=T)
+        self.unchanged(ctx, c, 'number_of_nodes')
